@@ -37,9 +37,9 @@ type c02Case struct {
 
 func (c02) Cases(tier string, seed uint64) []core.Case {
 	r := core.NewRng(core.Mix(seed, 0xC02))
-	nh := 80
+	nh := 320
 	if tier == "thorough" {
-		nh = 2500
+		nh = 8000
 	}
 	var out []core.Case
 	cfgs := core.CoverConfigs(r, nh)
